@@ -274,6 +274,22 @@ def sig(fdef):
 UNDEF = '__undef__'
 
 
+def clone(n):
+    """structural copy of an ast subtree (the loader's `_parent` back-links must not be followed)"""
+    if isinstance(n, ast.AST):
+        new = n.__class__()
+        for f in n._fields:
+            if hasattr(n, f):
+                setattr(new, f, clone(getattr(n, f)))
+        for a in ('lineno', 'col_offset', 'end_lineno', 'end_col_offset'):
+            if hasattr(n, a):
+                setattr(new, a, getattr(n, a))
+        return new
+    if isinstance(n, list):
+        return [clone(x) for x in n]
+    return n
+
+
 def _mk_name(n):
     return ast.Name(id=n, ctx=ast.Load())
 
@@ -358,7 +374,7 @@ class SymExec:
                     if any(nid in b for b in self.bound):
                         return n
                     if nid in env and nid not in ex.keep:
-                        return copy.deepcopy(env[nid])
+                        return clone(env[nid])
                     if nid != n.id:
                         return ast.copy_location(ast.Name(id=nid, ctx=ast.Load()), n)
                 return n
@@ -413,11 +429,11 @@ class SymExec:
                         if fn_.isdigit():
                             continue
                         nid = ex.ren.get(fn_, fn_)
-                        v = copy.deepcopy(env[nid]) if nid in env and nid not in ex.keep else _mk_name(nid)
+                        v = clone(env[nid]) if nid in env and nid not in ex.keep else _mk_name(nid)
                         kws.append(ast.keyword(arg=fn_, value=v))
                     n.keywords = kws
                 return n
-        return T().visit(copy.deepcopy(expr))
+        return T().visit(clone(expr))
 
     # -- driver
     def run(self):
@@ -439,21 +455,33 @@ class SymExec:
                 break
         return states
 
+    MAX_NODES = 2500
+
+    def _cap(self, name, value):
+        # values that grow beyond any template of interest become opaque (keeps substitution polynomial)
+        n = 0
+        for _ in ast.walk(value):
+            n += 1
+            if n > self.MAX_NODES:
+                self.n_big = getattr(self, 'n_big', 0) + 1
+                return _mk_call('__big__', ast.Constant(value=name), ast.Constant(value=self.n_big))
+        return value
+
     def _store(self, target, op, value, st):
         if isinstance(target, ast.Name):
             nid = self.ren.get(target.id, target.id)
             if op is None:
-                st.env[nid] = value
+                st.env[nid] = self._cap(nid, value)
             else:
                 prev = st.env.get(nid, _mk_name(nid))
-                st.env[nid] = ast.BinOp(left=copy.deepcopy(prev), op=op, right=value)
+                st.env[nid] = self._cap(nid, ast.BinOp(left=clone(prev), op=op, right=value))
         elif isinstance(target, (ast.Tuple, ast.List)):
             if isinstance(value, (ast.Tuple, ast.List)) and len(value.elts) == len(target.elts):
                 for t, v in zip(target.elts, value.elts):
                     self._store(t, op, v, st)
             else:
                 for i, t in enumerate(target.elts):
-                    self._store(t, op, ast.Subscript(value=copy.deepcopy(value), slice=ast.Constant(value=i),
+                    self._store(t, op, ast.Subscript(value=clone(value), slice=ast.Constant(value=i),
                                                       ctx=ast.Load()), st)
         else:
             st.stores.append((self.sub(target, st), op, value, list(st.conds)))
@@ -468,14 +496,14 @@ class SymExec:
                 nid = self.ren.get(v.func.value.id, v.func.value.id)
                 if nid in st.env and nid not in self.params:
                     if v.func.attr == 'append' and len(v.args) == 1:
-                        st.env[nid] = ast.BinOp(left=copy.deepcopy(st.env[nid]), op=ast.Add(),
+                        st.env[nid] = ast.BinOp(left=clone(st.env[nid]), op=ast.Add(),
                                                 right=ast.List(elts=[self.sub(v.args[0], st)], ctx=ast.Load()))
                         return [st]
                     if v.func.attr == 'extend' and len(v.args) == 1:
-                        st.env[nid] = ast.BinOp(left=copy.deepcopy(st.env[nid]), op=ast.Add(), right=self.sub(v.args[0], st))
+                        st.env[nid] = ast.BinOp(left=clone(st.env[nid]), op=ast.Add(), right=self.sub(v.args[0], st))
                         return [st]
                     if v.func.attr in ('insert', 'pop', 'clear', 'sort', 'reverse', 'remove', 'appendleft'):
-                        st.env[nid] = _mk_call('__mutated__', copy.deepcopy(st.env[nid]), self.sub(v, st))
+                        st.env[nid] = _mk_call('__mutated__', clone(st.env[nid]), self.sub(v, st))
                         return [st]
             st.calls.append((self.sub(v, st), list(st.conds)))
             return [st]
@@ -487,7 +515,7 @@ class SymExec:
                 v = _mk_call('__eff__', ast.Constant(value=self.n_eff), v)
                 self.n_eff += 1
             for t in n.targets:
-                self._store(t, None, copy.deepcopy(v), st)
+                self._store(t, None, clone(v), st)
             return [st]
         if isinstance(n, ast.AnnAssign):
             if n.value is not None:
@@ -551,17 +579,17 @@ class SymExec:
                         va = _mk_name(UNDEF)
                     if vb is None:
                         vb = _mk_name(UNDEF)
-                    if norm(va) == norm(vb):
+                    if va is vb or norm(va) == norm(vb):
                         merged.env[name] = va
                     else:
-                        merged.env[name] = ast.IfExp(test=copy.deepcopy(test), body=va, orelse=vb)
+                        merged.env[name] = self._cap(name, ast.IfExp(test=clone(test), body=va, orelse=vb))
                 merged.stores = a.stores + b.stores[len(st.stores):]
                 merged.calls = a.calls + b.calls[len(st.calls):]
                 return [merged]
             return ra + rb
         a, b = st.fork(), st.fork()
         a.conds.append((test, True))
-        b.conds.append((copy.deepcopy(test), False))
+        b.conds.append((clone(test), False))
         return self.block(n.body, [a]) + self.block(n.orelse, [b])
 
     def _loop(self, n, st):
@@ -577,11 +605,14 @@ class SymExec:
         for t in tnames:
             inner.env.pop(t, None)
         mod = _assigned(n.body) - tnames
-        before = {m: inner.env.get(self.ren.get(m, m)) for m in mod}
+        before = {}
         # inside the body the loop-carried variables are symbolic (`__carried__(name)`)
         for m in mod:
             mid = self.ren.get(m, m)
-            if mid in inner.env:
+            before[m] = inner.env.get(mid)
+            if before[m] is None and mid in self.params:
+                before[m] = _mk_name(mid)
+            if before[m] is not None:
                 inner.env[mid] = _mk_call('__carried__', ast.Constant(value=mid))
         inner.conds.append((it, 'loop'))
         n_out = len(self.outcomes)
@@ -591,7 +622,7 @@ class SymExec:
             # paths that differ inside the loop body: loop-carried values become opaque
             for m in mod:
                 mid = self.ren.get(m, m)
-                out.env[mid] = _mk_call('__loop__', copy.deepcopy(it), ast.Constant(value=tgt),
+                out.env[mid] = _mk_call('__loop__', clone(it), ast.Constant(value=tgt),
                                         before[m] if before[m] is not None else _mk_name(UNDEF), _mk_name('__paths__'))
             for t in tnames:
                 out.env.pop(t, None)
@@ -599,7 +630,7 @@ class SymExec:
         for m in mod:
             mid = self.ren.get(m, m)
             new = res[0].env.get(mid) if res else None
-            out.env[mid] = _mk_call('__loop__', copy.deepcopy(it), ast.Constant(value=tgt),
+            out.env[mid] = _mk_call('__loop__', clone(it), ast.Constant(value=tgt),
                                     before[m] if before[m] is not None else _mk_name(UNDEF),
                                     new if new is not None else _mk_name(UNDEF))
         if res:
@@ -1659,6 +1690,16 @@ def rule_optable(repo, backend):
                           f"emitted for e.g. 6 {want} 3 is the value of 6 {sym} 3", f.lineno)
                 else:
                     r.ok(c.mod, fq(c, f), cons)
+    # ---- the two back-ends agree
+    if backend == 'yosys':
+        ops_sv, sc, sf = visitor_ops(repo, 'sv')
+        for bop in sorted(set(ops) | set(ops_sv)):
+            cons = f"bir.{bop}: sv {ops_sv.get(bop)!r} / yosys {ops.get(bop)!r}"
+            if ops.get(bop) != ops_sv.get(bop):
+                r.bad(vc.mod, fq(vc, vf), cons, "the Yosys visitor emits another operator than the SystemVerilog visitor for the "
+                      "same RTLIR operator", vf.lineno)
+            else:
+                r.ok(vc.mod, fq(vc, vf), cons, nontrivial=False)
     r.evaluations = n_rows
     r.require_floor(16 + 6 + 7 + 10)
     return r
@@ -2922,5 +2963,901 @@ def rule_modname(repo, backend):
         else:
             r.ok(tm, 'Component._gen_parameters', cons)
     r.evaluations = nev
+    r.require_floor(3)
+    return r
+
+
+# ---------------------------------------------------------------------------
+_FOR_RE = re.compile(r"for\((?:int unsigned |integer |int )?(?P<v>[^;=]+)=⟨(?P<s>\d+)⟩;(?P=v)(?P<c><=|>=|<|>|!=)⟨(?P<e>\d+)⟩;"
+                     r"(?P=v)(?:(?P<i1>[+-])=|=(?P=v)(?P<i2>[+-]))⟨(?P<st>\d+)⟩\)(.*)")
+
+
+def rule_for(repo, backend):
+    r = RuleResult('R-tr-for', f"[{backend}] a range() loop is emitted with the bounds in place and with comparison and "
+                               f"increment direction following the sign of the step (`<`/`+` ascending, `>`/`-` descending)")
+    lk = linker(repo)
+    vis = tov_visitor(repo, backend)
+    nev = 0
+    c, f = lk.find(vis, 'visit_For')
+    ex, outs = sym_run(f)
+    headers = []
+    for o in outs:
+        if o.kind != 'return' or o.value is None:
+            continue
+        seen_t = set()
+        for n in ast.walk(o.value):
+            if isinstance(n, (ast.Call, ast.JoinedStr)) and norm(n) not in seen_t:
+                if isinstance(n, ast.Call) and not (isinstance(n.func, ast.Attribute) and n.func.attr == 'format'):
+                    continue
+                seen_t.add(norm(n))
+                for v in to_variants(n, o.conds):
+                    if v.skeleton().startswith('for('):
+                        headers.append((o, v))
+    if not headers:
+        raise AnalysisError(f"{fq(c, f)}: loop header template not found")
+    reported = set()
+    good = set()
+    for st in (1, 2, -1, -3):
+        lv = {'node.step._value': st, 'node.step.value': st, 'len(node.body)': 2}
+        live = [(o, v) for o, v in headers if possible(v.conds, lv)]
+        if not live:
+            r.bad(c.mod, fq(c, f), f"visit_For step={st}", "no loop header is emitted for this step", f.lineno)
+        for o, v in live:
+            nev += 1
+            sk = v.skeleton()
+            hl = hole_list(v.parts)
+            m = _FOR_RE.fullmatch(sk)
+            key = (sk, st > 0)
+            if not m:
+                if sk not in reported:
+                    reported.add(sk)
+                    r.bad(c.mod, fq(c, f), f"visit_For -> {sk}", "loop header is not of the form for (i = start; i <cmp> end; i = i +/- step)",
+                          o.node.lineno)
+                continue
+            start, end = hl[int(m.group('s'))].text, hl[int(m.group('e'))].text
+            comp, inc = m.group('c'), m.group('i1') or m.group('i2')
+            want_c, want_i = ('<', '+') if st > 0 else ('>', '-')
+            probs = []
+            if start != 's.visit(node.start)' or end != 's.visit(node.end)':
+                probs.append(f"bounds are ({start}, {end}), expected (start, end)")
+            if comp != want_c:
+                probs.append(f"continuation test uses `{comp}` for a {'positive' if st > 0 else 'negative'} step (range({'0, 4' if st > 0 else '3, 0'}, "
+                             f"{st}) must run while i {want_c} end)")
+            if inc != want_i:
+                probs.append(f"the index is {'incremented' if inc == '+' else 'decremented'} for a {'positive' if st > 0 else 'negative'} step")
+            cons = f"visit_For step{'>0' if st > 0 else '<0'} -> {sk}"
+            if probs:
+                if key not in reported:
+                    reported.add(key)
+                    r.bad(c.mod, fq(c, f), cons, '; '.join(probs) + ": the emitted loop runs a different number of iterations "
+                          "than the Python loop (never, for a descending range)", o.node.lineno)
+            elif key not in good:
+                good.add(key)
+                r.ok(c.mod, fq(c, f), cons)
+    r.evaluations = nev
+    r.require_floor(2)
+    return r
+
+
+# ---------------------------------------------------------------------------
+def _loop_parts(e):
+    if _is_loopcall(e) and len(e.args) == 4:
+        return e.args
+    return None
+
+
+def rule_sigexpr(repo, backend):
+    r = RuleResult('R-tr-sigexpr', f"[{backend}] a connected signal is rebuilt from the component outwards: attribute, then its "
+                                   f"array indices in source order, ..., slice last (s.a[1][2].b[0:4] stays s.a[1][2].b[0:4])")
+    m = repo.mod(SEXP)
+    fn = m.functions.get('gen_signal_expr')
+    if fn is None:
+        raise AnalysisError("anchor vanished: gen_signal_expr")
+    ex, outs = sym_run(fn, rename=False)
+    rets = [o for o in outs if o.kind == 'return' and o.value is not None and _is_loopcall(o.value)]
+    if len(rets) != 1:
+        raise AnalysisError("gen_signal_expr: token application loop not found")
+    o = rets[0]
+    it, tgt, init, step = o.value.args
+    cons_rev = isinstance(it, ast.Call) and norm(it.func) == 'reversed' and len(it.args) == 1
+    stack = it.args[0] if cons_rev else it
+    lp = _loop_parts(stack)
+    if lp is None:
+        raise AnalysisError("gen_signal_expr: token stack is not built by the parent walk")
+    w_test, _, s_init, s_body = lp
+    # application step: cur_node = f(cur_node, token)
+    tnames = [x.strip() for x in tgt.value.strip('()').split(',')]
+    ok_apply = len(tnames) == 2 and norm(step) == f"{tnames[0]}(__carried__('cur_node'), {tnames[1]})"
+    if ok_apply and norm(init).startswith('construct_base('):
+        r.ok(m, 'gen_signal_expr', f"cur_node = construct_base(...); for {tgt.value} in ...: cur_node = f(cur_node, token)")
+    else:
+        r.bad(m, 'gen_signal_expr', f"{norm(init)[:60]} ; {norm(step)[:60]}", "tokens are not applied one after the other starting "
+              "from the component", fn.lineno)
+    # body of the walk: index pushes then the attribute push
+    segs = flatten_add(s_body)
+    idx_seg = [s_ for s_ in segs if 'construct_index' in norm(s_)]
+    attr_seg = [s_ for s_ in segs if 'construct_attr' in norm(s_) and 'construct_index' not in norm(s_)]
+    if len(idx_seg) != 1 or len(attr_seg) != 1:
+        raise AnalysisError("gen_signal_expr: index / attribute pushes not recognised")
+    attr_after = segs.index(attr_seg[0]) > segs.index(idx_seg[0])
+    iloops = [n for n in ast.walk(idx_seg[0]) if _is_loopcall(n)]
+    if len(iloops) != 1:
+        raise AnalysisError("gen_signal_expr: index push loop not recognised")
+    i_it, i_tgt, i_init, i_step = iloops[0].args
+    idx_rev = isinstance(i_it, ast.Call) and norm(i_it.func) == 'reversed'
+    idx_append = norm(i_step).startswith("__carried__('stack') + ")
+    slice_first = 'construct_slice' in norm(s_init) and 'construct_slice' not in norm(s_body)
+    cons = (f"stack: slice{' first' if slice_first else ' NOT first'}; per object: indices "
+            f"{'reversed' if idx_rev else 'in order'} then attr{'' if attr_after else ' (attr BEFORE indices)'}; applied "
+            f"{'reversed' if cons_rev else 'in push order'}")
+    # order in which one object's tokens are applied (closest to the component first), for two indices i1, i2
+    pushes = ['i2', 'i1'] if idx_rev else ['i1', 'i2']
+    if not idx_append:
+        pushes = pushes[::-1]
+    seq = pushes + ['attr'] if attr_after else ['attr'] + pushes
+    applied = seq[::-1] if cons_rev else seq
+    good = applied == ['attr', 'i1', 'i2'] and slice_first == cons_rev
+    if good:
+        r.ok(m, 'gen_signal_expr', cons, note="applied per object: attr, i1, i2; slice last")
+    else:
+        r.bad(m, 'gen_signal_expr', cons, f"per object the tokens are applied as {applied}"
+              f"{'' if slice_first == cons_rev else ' and the slice is not applied last'}: a connection to s.x[1][2] is emitted "
+              f"for s.x[2][1] (or the attribute is taken of an index)", fn.lineno)
+    r.require_floor(2)
+    return r
+
+
+# ---------------------------------------------------------------------------
+def rule_constcache(repo, backend):
+    r = RuleResult('R-tr-constcache', f"[{backend}] constants resolved for an update block are memoised per (block, closure) only: "
+                                      f"the memo keyed by AST node lives in the extractor instance created when the block is entered")
+    lk = linker(repo)
+    gm = repo.mod(GEN[1])
+    if 'ConstantExtractor' not in gm.classes:
+        raise AnalysisError("anchor vanished: ConstantExtractor")
+    meths = gm.methods('ConstantExtractor')
+    init = meths.get('__init__')
+    if init is None:
+        raise AnalysisError("anchor vanished: ConstantExtractor.__init__")
+    me0 = init.args.args[0].arg
+    fresh = set()
+    for n in walk_no_nested(init):
+        if isinstance(n, ast.Assign) and len(n.targets) == 1 and isinstance(n.targets[0], ast.Attribute) \
+                and isinstance(n.targets[0].value, ast.Name) and n.targets[0].value.id == me0:
+            v = n.value
+            if (isinstance(v, ast.Dict) and not v.keys) or (isinstance(v, ast.Call) and norm(v.func) in ('dict', 'OrderedDict') and not v.args):
+                fresh.add(n.targets[0].attr)
+    n_memo = 0
+    for name, f in sorted(meths.items()):
+        if len(f.args.args) < 2:
+            continue
+        me, nd = f.args.args[0].arg, f.args.args[1].arg
+        conts = {}
+        for n in walk_no_nested(f):
+            if isinstance(n, ast.Subscript) and norm(n.slice) == nd:
+                conts.setdefault(norm(n.value), n)
+            if isinstance(n, ast.Compare) and len(n.ops) == 1 and isinstance(n.ops[0], (ast.In, ast.NotIn)) and norm(n.left) == nd:
+                conts.setdefault(norm(n.comparators[0]), n)
+        for ctext, n in sorted(conts.items()):
+            n_memo += 1
+            cons = f"{name}: memo {ctext}[{nd}]"
+            mm = re.fullmatch(rf"{re.escape(me)}\.(\w+)", ctext)
+            if mm and mm.group(1) in fresh:
+                r.ok(gm, f"ConstantExtractor.{name}", cons)
+            else:
+                r.bad(gm, f"ConstantExtractor.{name}", cons, f"results are memoised by AST node in `{ctext}`, which is not a "
+                      f"dictionary created in ConstantExtractor.__init__: the AST of an update block is shared by all instances "
+                      f"of a component class, so a constant resolved for one instance (closure / parameters) is reused for the "
+                      f"next one and the wrong literal is emitted", n.lineno)
+    # the extractor is created when a block is entered (with that block's globals / closure)
+    gen = generator_class(repo, backend)
+    res = lk.find(gen, 'enter')
+    if res is None:
+        raise AnalysisError("anchor vanished: generator enter")
+    c, f = res
+    mk = [n for n in walk_no_nested(f) if isinstance(n, ast.Call) and isinstance(n.func, ast.Name) and n.func.id == 'ConstantExtractor']
+    elsewhere = []
+    for cc in lk.mro(gen):
+        for mname, ff in cc.methods().items():
+            if ff is f:
+                continue
+            elsewhere += [(cc, ff, n) for n in ast.walk(ff) if isinstance(n, ast.Call) and isinstance(n.func, ast.Name)
+                          and n.func.id == 'ConstantExtractor']
+    if mk and not elsewhere and len(mk[0].args) == 3 and norm(mk[0].args[2]).endswith('.closure'):
+        r.ok(c.mod, fq(c, f), f"{norm(mk[0])} created per block entry")
+    else:
+        w = elsewhere[0] if elsewhere else None
+        r.bad(c.mod, fq(c, f) if w is None else fq(w[0], w[1]), 'ConstantExtractor(...)', "the constant extractor (and its memo) "
+              "must be created anew for every update block that is entered, from that block's globals and closure", f.lineno)
+    if n_memo == 0:
+        r.ok(gm, 'ConstantExtractor', 'no memo keyed by AST node', nontrivial=False)
+    r.require_floor(2)
+    return r
+
+
+# ---------------------------------------------------------------------------
+def _descending_range(it, n_text):
+    """iteration visits n-1 .. 0 ?"""
+    t = norm(it)
+    return t in (f"reversed(range({n_text}))", f"range({n_text} - 1, -1, -1)", f"reversed(list(range({n_text})))")
+
+
+def _ascending_range(it, n_text):
+    return norm(it) in (f"range({n_text})", f"range(0, {n_text})", f"range(0, {n_text}, 1)")
+
+
+def _check_struct_instance(r, cls, fdef, what):
+    """struct literal emitter: fields in declaration order (first field most significant), packed arrays with
+    element n-1 first (element 0 least significant), joined by ', ' inside a concatenation"""
+    mod = cls.mod
+    ex, outs = sym_run(fdef)
+    params = [a.arg for a in fdef.args.args]
+    dt = params[1] if len(params) > 1 else None
+    n_ok = 0
+    found = False
+    for o in outs:
+        if o.kind != 'return' or o.value is None:
+            continue
+        for v in to_variants(o.value, o.conds):
+            joins = [h for h in hole_list(v.parts) if h.kind == 'join']
+            loops = [h.expr for h in joins if _is_loopcall(h.expr)]
+            if not loops:
+                continue
+            found = True
+            it, tgt, init, step = loops[0].args
+            sk = v.skeleton()
+            cons = f"{what}: {sk} fields {norm(it)[:60]}"
+            probs = []
+            if norm(it) != f"{dt}.get_all_properties().items()":
+                probs.append(f"fields are visited as `{norm(it)}`, not in declaration order ({dt}.get_all_properties().items())")
+            if joins[0].spec.strip() != ',':
+                probs.append("fields are not joined by ','")
+            if not norm(step).startswith("__carried__("):
+                probs.append("per-field text is not appended at the end of the list")
+            if not re.fullmatch(r"\{+⟨0⟩\}+", sk):
+                probs.append(f"struct literal is emitted as `{sk}`, not as a concatenation {{ f1, f2, ... }}")
+            if probs:
+                r.bad(mod, fq(cls, fdef), cons, '; '.join(probs) + " -- the first declared field must be the most significant part "
+                      "of the packed value (bitstruct to_bits order)", o.node.lineno)
+            else:
+                r.ok(mod, fq(cls, fdef), cons)
+                n_ok += 1
+    if not found:
+        raise AnalysisError(f"{fq(cls, fdef)}: field loop of the struct literal not found")
+    # packed array helper
+    inner = [n for n in _nested_funcs(fdef) if any(isinstance(x, ast.For) for x in ast.walk(n))]
+    for g in inner:
+        fors = [x for x in walk_no_nested(g) if isinstance(x, ast.For)]
+        gp = [a.arg for a in g.args.args]
+        for lp in fors:
+            ndim = None
+            mm = re.search(r"range\((\w+)\[0\]", norm(lp.iter))
+            if mm:
+                ndim = mm.group(1) + '[0]'
+            cons = f"{what}.{g.name}: for {norm(lp.target)} in {norm(lp.iter)}"
+            if ndim is None:
+                raise AnalysisError(f"{fq(cls, fdef)}.{g.name}: packed-array loop not recognised: {norm(lp.iter)}")
+            apps = [x for x in ast.walk(lp) if isinstance(x, ast.Call) and isinstance(x.func, ast.Attribute) and x.func.attr == 'append']
+            uses_i = any(f"[{norm(lp.target)}]" in norm(x) for x in ast.walk(lp) if isinstance(x, ast.Subscript))
+            if not _descending_range(lp.iter, ndim):
+                r.bad(mod, fq(cls, fdef), cons, "elements of a packed array must be concatenated from index n-1 down to 0 "
+                      "(element 0 is the least significant part of the packed value)", lp.lineno)
+            elif len(apps) != 1 or not uses_i:
+                r.bad(mod, fq(cls, fdef), cons, "each element must be appended exactly once, selected by the loop index", lp.lineno)
+            else:
+                r.ok(mod, fq(cls, fdef), cons)
+                n_ok += 1
+    return n_ok
+
+
+def rule_layout(repo, backend):
+    r = RuleResult('R-layout-agree', f"[{backend}] struct literals and struct construction keep the packed layout of bitstructs: "
+                                     f"first field most significant, packed-array element 0 least significant")
+    lk = linker(repo)
+    top = backend_class(repo, backend)
+    n = 0
+    res = lk.find(top, 'rtlir_tr_struct_instance')
+    if res is None:
+        raise AnalysisError("anchor vanished: rtlir_tr_struct_instance")
+    n += _check_struct_instance(r, res[0], res[1], 'rtlir_tr_struct_instance')
+    vis = tov_visitor(repo, backend)
+    res = lk.find(vis, '_struct_instance')
+    if res is not None:
+        n += _check_struct_instance(r, res[0], res[1], '_struct_instance')
+    # behavioural struct construction  S(a, b)  ->  { a, b }
+    for c, f, o in emissions(lk, vis, 'visit_StructInst'):
+        if o.kind != 'return' or o.value is None:
+            continue
+        for v in to_variants(o.value, o.conds):
+            hl = hole_list(v.parts)
+            sk = v.skeleton()
+            cons = f"visit_StructInst -> {sk} {[h.text[:50] for h in hl]}"
+            src_ok = lambda t: t in ('list(map(s.visit, node.values))', '[s.visit(v) for v in node.values]') or \
+                re.fullmatch(r"\[s\.visit\((\w+)\) for \1 in node\.values\]", t) is not None
+            if sk == '{⟨0⟩}' and hl[0].kind == 'join' and hl[0].spec.strip() == ',' and src_ok(hl[0].text):
+                r.ok(c.mod, fq(c, f), cons)
+                n += 1
+            elif sk == '⟨0⟩' and hl[0].kind == 'expr' and re.fullmatch(r"(list\(map\(s\.visit, node\.values\)\)|\[.*node\.values\])\[0\]", hl[0].text):
+                r.ok(c.mod, fq(c, f), cons, nontrivial=False)
+            else:
+                r.bad(c.mod, fq(c, f), cons, "a struct built from field values must be emitted as { v1, v2, ... } in field order "
+                      "(first field most significant)", o.node.lineno)
+    # concat( a, b ) -> { a, b }
+    for c, f, o in emissions(lk, vis, 'visit_Concat'):
+        if o.kind != 'return' or o.value is None:
+            continue
+        for v in to_variants(o.value, o.conds):
+            hl = hole_list(v.parts)
+            sk = v.skeleton()
+            cons = f"visit_Concat -> {sk} {[h.text[:50] for h in hl]}"
+            if sk == '{⟨0⟩}' and hl[0].kind == 'join' and hl[0].spec.strip() == ',' and \
+                    re.fullmatch(r"\[s\.visit\((\w+)\) for \1 in node\.values\]|list\(map\(s\.visit, node\.values\)\)", hl[0].text):
+                r.ok(c.mod, fq(c, f), cons)
+                n += 1
+            else:
+                r.bad(c.mod, fq(c, f), cons, "concat(a, b, ...) must be emitted as { a, b, ... } with the first argument most "
+                      "significant", o.node.lineno)
+    r.evaluations = n
+    r.require_floor(4)
+    return r
+
+
+# ===========================================================================
+# H. C12 only: flattening of struct / array ports
+# ===========================================================================
+def _find_call(e, pred):
+    return [n for n in ast.walk(e) if isinstance(n, ast.Call) and pred(n)]
+
+
+def _callee_name(call):
+    f = call.func
+    if isinstance(f, ast.Attribute):
+        return f.attr
+    if isinstance(f, ast.Name):
+        return f.id
+    return None
+
+
+def rule_flatten(repo):
+    r = RuleResult('R-C12-flatten', "a flattened struct port carries [c-1 : c-w] of the packed value with a running MSB counter c that "
+                                    "starts at the struct width, decreases by each field's width in field order and ends at 0; "
+                                    "packed arrays put element n-1 first (element 0 least significant)")
+    lk = linker(repo)
+    top = backend_class(repo, 'yosys')
+    nev = 0
+    PROPS = '.get_all_properties().items()'
+
+    def get(name, nested=None):
+        res = lk.find(top, name)
+        if res is None:
+            raise AnalysisError(f"anchor vanished: {name}")
+        c, f = res
+        g = f
+        if nested:
+            cand = [n for n in _nested_funcs(f) if n.name == nested] or [n for n in _nested_funcs(f)]
+            if not cand:
+                raise AnalysisError(f"anchor vanished: {name}.{nested}")
+            g = cand[0]
+        return c, f, g
+
+    # ---- leaf: [c-1 : c-w]
+    c, f, g = get('vec_conn_vector_gen')
+    ps = [a.arg for a in f.args.args][1:]
+    ex, outs = sym_run(f)
+    seen = False
+    for o in outs:
+        if o.kind != 'return' or o.value is None:
+            continue
+        dicts = [n for n in ast.walk(o.value) if isinstance(n, ast.Dict)]
+        for d in dicts:
+            kv = {k.value: v for k, v in zip(d.keys, d.values) if isinstance(k, ast.Constant)}
+            if 'idx' not in kv:
+                continue
+            seen = True
+            for v in to_variants(kv['idx']):
+                hl = hole_list(v.parts)
+                sk = v.skeleton()
+                cons = f"vec_conn_vector_gen idx -> {sk} {[h.text for h in hl]}"
+                okl = sk == '⟨0⟩[⟨1⟩:⟨2⟩]' and hl[0].text == 'idx'
+                if okl:
+                    for K, w in ((8, 8), (8, 3), (5, 1)):
+                        nev += 1
+                        lv = {'c_nbits': K, 'dtype.get_length()': w}
+                        lv[ps[1]] = K
+                        okl = okl and _hole_eq(hl[1], lv, K - 1) and _hole_eq(hl[2], lv, K - w)
+                pid_ok = norm(kv.get('pid')) == 'pid' and norm(kv.get('wid')) == 'wid' and norm(kv.get('direction')) == 'd'
+                if okl and pid_ok:
+                    r.ok(c.mod, fq(c, f), cons)
+                else:
+                    r.bad(c.mod, fq(c, f), cons, "the slice of the packed wire connected to a flat leaf port must be "
+                          "[c_nbits-1 : c_nbits-width] (running MSB counter), with the port / wire ids passed through", o.node.lineno)
+    if not seen:
+        raise AnalysisError("vec_conn_vector_gen: connection record not found")
+
+    # ---- struct traversal
+    def check_struct_loop(c, f, loopval, counter_name, cons_prefix, init_want=None):
+        nonlocal nev
+        lp = _loop_parts(loopval)
+        if lp is None:
+            r.bad(c.mod, fq(c, f), cons_prefix, "field loop not found", f.lineno)
+            return
+        it, tgt, init, step = lp
+        tn = [x.strip() for x in tgt.value.strip('()').split(',')]
+        calls = _find_call(step, lambda n: _callee_name(n) == 'vec_conn_dtype_gen')
+        cons = f"{cons_prefix}: for {tgt.value} in {norm(it)[:50]}: {norm(calls[0])[:110] if calls else norm(step)[:80]}"
+        probs = []
+        if not norm(it).endswith(PROPS) or 'reversed' in norm(it) or 'sorted' in norm(it):
+            probs.append(f"fields are visited as `{norm(it)}`, not in declaration order")
+        if len(calls) != 1:
+            probs.append("exactly one recursive vec_conn_dtype_gen call per field expected")
+        else:
+            a = [norm(x) for x in calls[0].args]
+            if a[1] != f"__carried__('{counter_name}')":
+                probs.append(f"the field is connected with counter `{a[1]}`; it must get the counter value *before* its own width "
+                             f"is subtracted")
+            if len(tn) == 2 and a[-1] != tn[1]:
+                probs.append(f"the recursive call gets `{a[-1]}`, not the field's type `{tn[1]}`")
+            if len(tn) == 2 and not re.fullmatch(rf"pid \+ '__' \+ {tn[0]}|f'\{{pid\}}__\{{{tn[0]}\}}'", a[2]):
+                probs.append(f"flat port id is `{a[2]}`, expected pid__<field name>")
+            if not norm(step).startswith(f"__carried__('ret') + "):
+                probs.append("connections are not appended in field order")
+        if probs:
+            r.bad(c.mod, fq(c, f), cons, '; '.join(probs), f.lineno)
+        else:
+            r.ok(c.mod, fq(c, f), cons)
+
+    def check_counter(c, f, cval, counter_name, cons_prefix, want_init, final_zero_conds=None):
+        lp = _loop_parts(cval)
+        cons = f"{cons_prefix}: {counter_name} = {norm(cval)[:150]}"
+        if lp is None:
+            r.bad(c.mod, fq(c, f), cons, f"the MSB counter {counter_name} is not decremented in the field loop: every field is "
+                  f"connected to the same top bits of the packed value", f.lineno)
+            return
+        it, tgt, init, step = lp
+        tn = [x.strip() for x in tgt.value.strip('()').split(',')]
+        probs = []
+        fld = tn[1] if len(tn) == 2 else tn[0]
+        if norm(step) != f"__carried__('{counter_name}') - {fld}.get_length()":
+            probs.append(f"counter step is `{norm(step)}`, expected {counter_name} - {fld}.get_length() (the width of the field just "
+                         f"connected)")
+        if want_init is not None and norm(init) != want_init:
+            probs.append(f"counter starts at `{norm(init)}`, expected {want_init}")
+        if final_zero_conds is not None:
+            if not any(p is True and norm(t) == f"{norm(cval)} == 0" for t, p in final_zero_conds):
+                probs.append("the counter is not asserted to end at 0 (field widths must add up to the struct width)")
+        if probs:
+            r.bad(c.mod, fq(c, f), cons, '; '.join(probs), f.lineno)
+        else:
+            r.ok(c.mod, fq(c, f), cons)
+
+    c, f, g = get('vec_conn_struct_gen')
+    ex, outs = sym_run(f)
+    rets = [o for o in outs if o.kind == 'return' and o.value is not None]
+    if len(rets) != 1:
+        raise AnalysisError("vec_conn_struct_gen: single return expected")
+    cn = f.args.args[2].arg
+    check_struct_loop(c, f, rets[0].value, cn, 'vec_conn_struct_gen')
+    check_counter(c, f, rets[0].env.get(cn, _mk_name(cn)), cn, 'vec_conn_struct_gen', cn)
+
+    c, f, g = get('struct_conn_gen')
+    ex, outs = sym_run(f)
+    rets = [o for o in outs if o.kind == 'return' and o.value is not None]
+    if len(rets) != 1:
+        raise AnalysisError("struct_conn_gen: single return expected")
+    o = rets[0]
+    # the returned list: per-field connections first, then the slices of the packed wire
+    lp = _loop_parts(o.value)
+    counters = [k for k, v in o.env.items() if _is_loopcall(v) and re.search(r"__carried__\('(\w+)'\) - ", norm(v.args[3]))
+                and k not in ('ret',)]
+    if lp is None or len(counters) != 1:
+        # no decrementing counter at all
+        r.bad(c.mod, fq(c, f), 'struct_conn_gen counter', "no running MSB counter is decremented while the fields are connected to "
+              "slices of the packed wire", f.lineno)
+    else:
+        cn = counters[0]
+        check_struct_loop(c, f, o.value, cn, 'struct_conn_gen')
+        check_counter(c, f, o.env[cn], cn, 'struct_conn_gen', 'dtype.get_length()', o.conds)
+        # first pass: field-wise wires keep the same mangling on both sides
+        inner = lp[2]
+        ilp = _loop_parts(inner)
+        if ilp is not None:
+            calls = _find_call(ilp[3], lambda n: _callee_name(n) == 'dtype_conn_gen')
+            tn = [x.strip() for x in ilp[1].value.strip('()').split(',')]
+            if len(calls) == 1 and len(tn) == 2:
+                a = [norm(x) for x in calls[0].args]
+                cons = f"struct_conn_gen: {norm(calls[0])[:120]}"
+                if a[1] == f"pid + '__' + {tn[0]}" and a[2] == f"wid + '__' + {tn[0]}" and a[-1] == tn[1] and norm(ilp[0]).endswith(PROPS):
+                    r.ok(c.mod, fq(c, f), cons)
+                else:
+                    r.bad(c.mod, fq(c, f), cons, "the field-wise port and wire of a struct field must be mangled alike "
+                          "(pid__<field>, wid__<field>) and recurse on the field's type", f.lineno)
+
+    # ---- packed arrays
+    c, f, g = get('vec_conn_packed_gen', '_packed_gen')
+    ex, outs = sym_run(g, rename=False)
+    gps = [a.arg for a in g.args.args]
+    rec = [o for o in outs if o.kind == 'return' and o.value is not None and _is_loopcall(o.value)]
+    leaf = [o for o in outs if o.kind == 'return' and o.value is not None and not _is_loopcall(o.value)]
+    if len(rec) != 1 or len(leaf) != 1:
+        raise AnalysisError("vec_conn_packed_gen._packed_gen: leaf / recursive paths not recognised")
+    o = rec[0]
+    it, tgt, init, step = o.value.args
+    iv = tgt.value
+    cn = gps[1]
+    pn = gps[6] if len(gps) > 6 else None
+    nd = gps[5] if len(gps) > 5 else None
+    calls = _find_call(step, lambda n: _callee_name(n) == g.name)
+    cons = f"_packed_gen: for {iv} in {norm(it)}: {norm(calls[0])[:120] if calls else norm(step)[:80]}"
+    probs = []
+    if not _descending_range(it, f"{nd}[0]"):
+        probs.append(f"elements are visited as `{norm(it)}`; element n-1 must take the most significant slice (descending index)")
+    if len(calls) != 1:
+        probs.append("one recursive call per element expected")
+    else:
+        a = [norm(x) for x in calls[0].args]
+        if a[1] != f"__carried__('{cn}')":
+            probs.append(f"element connected with counter `{a[1]}` instead of the counter before its own decrement")
+        if not re.fullmatch(rf"pid \+ '__' \+ str\({iv}\)|f'\{{pid\}}__\{{{iv}\}}'", a[2]):
+            probs.append(f"flat port id is `{a[2]}`, expected pid__<index>")
+        if a[5] != f"{nd}[1:]":
+            probs.append(f"recursion must continue with the remaining dimensions {nd}[1:], got `{a[5]}`")
+    cval = o.env.get(cn)
+    clp = _loop_parts(cval) if cval is not None else None
+    if clp is None:
+        probs.append("the MSB counter is not decremented per element")
+    else:
+        stepc = clp[3]
+        mm = isinstance(stepc, ast.BinOp) and isinstance(stepc.op, ast.Sub) and norm(stepc.left) == f"__carried__('{cn}')"
+        if not mm:
+            probs.append(f"counter step `{norm(stepc)}` is not a decrement")
+        else:
+            for P, dims, E in ((24, [2, 3], 4), (12, [3], 4), (16, [2, 2, 2], 2)):
+                nev += 1
+                lv = {pn: P, nd: dims, 'dtype.get_length()': E, f"{nd}[0]": dims[0]}
+                okd, dval = try_ev(stepc.right, lv)
+                if not okd:
+                    raise AnalysisError(f"_packed_gen: decrement outside the abstract domain: {norm(stepc.right)}")
+                if dval != P // dims[0]:
+                    probs.append(f"for a packed array of total width {P} with dimensions {dims} (element width {E}) the counter "
+                                 f"advances by {dval} per element of the outermost dimension, expected {P // dims[0]}")
+                    break
+                if len(calls) == 1:
+                    okp, pval = try_ev(calls[0].args[6], lv)
+                    if not okp or pval != P // dims[0]:
+                        probs.append(f"the recursion is given sub-array width `{norm(calls[0].args[6])}` = {pval}, expected {P // dims[0]}")
+                        break
+    if probs:
+        r.bad(c.mod, fq(c, f), cons, '; '.join(probs), g.lineno)
+    else:
+        r.ok(c.mod, fq(c, f), cons)
+    # outer call: total width and dimensions of *this* packed array
+    ex, outs = sym_run(f)
+    for o in outs:
+        if o.kind != 'return' or o.value is None:
+            continue
+        calls = _find_call(o.value, lambda n: _callee_name(n) == g.name)
+        if len(calls) != 1:
+            continue
+        a = [norm(x) for x in calls[0].args]
+        p0 = [x.arg for x in f.args.args][-1]
+        cons = f"vec_conn_packed_gen: {norm(calls[0])[:140]}"
+        if a[5:8] == [f"{p0}.get_dim_sizes()", f"{p0}.get_length()", f"{p0}.get_sub_dtype()"] and a[1] == f.args.args[2].arg:
+            r.ok(c.mod, fq(c, f), cons)
+        else:
+            r.bad(c.mod, fq(c, f), cons, "the traversal must start with the array's own dimensions, total width and element type",
+                  o.node.lineno)
+    r.evaluations = nev
+    r.require_floor(8)
+    return r
+
+
+# ---------------------------------------------------------------------------
+_US = re.compile(r"^_+$")
+
+
+def _mangle_sites(fdef):
+    """name-building expressions of a function: concatenations / f-strings whose literal text is underscores only"""
+    sites = []
+    seen = set()
+    for n in ast.walk(fdef):
+        if id(n) in seen:
+            continue
+        e = None
+        if isinstance(n, ast.JoinedStr):
+            lits = [v.value for v in n.values if isinstance(v, ast.Constant)]
+            if lits and all(_US.match(x) for x in lits) and any(isinstance(v, ast.FormattedValue) for v in n.values):
+                e = n
+        elif isinstance(n, ast.BinOp) and isinstance(n.op, ast.Add):
+            p = parent(n)
+            if isinstance(p, ast.BinOp) and isinstance(p.op, ast.Add):
+                continue          # only the outermost concatenation
+            segs = flatten_add(n)
+            lits = [x.value for x in segs if isinstance(x, ast.Constant) and isinstance(x.value, str)]
+            if lits and all(_US.match(x) for x in lits) and len(segs) > len(lits):
+                e = n
+        elif isinstance(n, ast.Constant) and isinstance(n.value, str) and re.fullmatch(r"_+\{\}", n.value):
+            e = n
+        if e is not None:
+            for x in ast.walk(e):
+                seen.add(id(x))
+            sites.append(e)
+    return sites
+
+
+def rule_mangle(repo):
+    r = RuleResult('R-C12-mangle', "port, wire, connection and behavioural generators mangle a struct field / array element / "
+                                   "interface member / sub-component port with the same separator `__` (parent__child)")
+    lk = linker(repo)
+    files = [x for x in YS_S[1:] + YS_B[1:] + [YS_UTIL] + SV_S[3:] + SV_B[4:]]
+    n = 0
+    for rel in files:
+        m = repo.mod(rel)
+        funcs = []
+        for cname in m.classes:
+            for mn, f in m.methods(cname).items():
+                funcs.append((f"{cname}.{mn}", f))
+        for fn, f in m.functions.items():
+            funcs.append((fn, f))
+        for qn, f in sorted(funcs):
+            for e in _mangle_sites(f):
+                n += 1
+                if isinstance(e, ast.Constant):
+                    sk = e.value
+                    okm = sk == '__{}'
+                else:
+                    vs = to_variants(e)
+                    sk = vs[0].skeleton() if vs else '?'
+                    okm = len(vs) == 1 and re.fullmatch(r"⟨0⟩__⟨1⟩(⟨\d+⟩)*", sk) is not None
+                    # longer chains  a__b_c  (loop variable / tmpvar prefixes) are not hierarchy mangling
+                    if not okm and len(vs) == 1 and re.fullmatch(r"(__\w+__)?⟨0⟩_⟨1⟩|__\w+__⟨0⟩(_⟨1⟩)?", sk):
+                        n -= 1
+                        continue
+                cons = f"{norm(e)[:80]} -> {sk}"
+                if okm:
+                    r.ok(m, qn, cons)
+                else:
+                    r.bad(m, qn, cons, "hierarchy name mangling must be <parent>__<child> with exactly two underscores; a generator "
+                          "that differs declares / connects a name that its siblings never declare", getattr(e, 'lineno', 0))
+    # default separator of the mapped-port helper
+    um = repo.mod(YS_UTIL)
+    gf = um.functions.get('gen_mapped_ports')
+    if gf is None:
+        raise AnalysisError("anchor vanished: gen_mapped_ports")
+    dflt = {a.arg: d for a, d in zip(gf.args.args[-len(gf.args.defaults):], gf.args.defaults)} if gf.args.defaults else {}
+    if 'sep' in dflt:
+        if isinstance(dflt['sep'], ast.Constant) and dflt['sep'].value == '__':
+            r.ok(um, 'gen_mapped_ports', "sep='__'")
+        else:
+            r.bad(um, 'gen_mapped_ports', f"sep={norm(dflt['sep'])}", "the port-map helper must mangle with the translator's separator `__`",
+                  gf.lineno)
+    r.evaluations = n
+    r.require_floor(35)
+    return r
+
+
+# ---------------------------------------------------------------------------
+def _dims_position(scope_funcs, own_texts):
+    """is the generator's own dimension list the first or the last operand of the `A + B` that forms the declared
+    wire's dimensions?  -> 'first' / 'last' / None"""
+    for f in scope_funcs:
+        for n in ast.walk(f):
+            if isinstance(n, ast.BinOp) and isinstance(n.op, ast.Add):
+                l, rr = n.left, n.right
+
+                def txts(e):
+                    if isinstance(e, ast.Name):
+                        rv = reaching_value(e.id, n)
+                        if rv is not None:
+                            return {norm(rv), '~' + norm(e)}
+                    return {norm(e)}
+                lt, rt_ = txts(l), txts(rr)
+                dimsy = lambda ts: any(re.search(r"n_?dim|get_dim_sizes", t) for t in ts)
+                if not (dimsy(lt) and dimsy(rt_)):
+                    continue
+                if lt & own_texts and not (rt_ & own_texts):
+                    return 'first'
+                if rt_ & own_texts and not (lt & own_texts):
+                    return 'last'
+    return None
+
+
+def rule_index_order(repo):
+    r = RuleResult('R-C12-index-order', "recursive array generators build the wire index in the order of the declared wire's "
+                                        "dimensions, and in the same order as the indices in the mangled flat name (no transposition)")
+    lk = linker(repo)
+    top = backend_class(repo, 'yosys')
+    n = 0
+    # candidate generators: (possibly nested) functions with a self-recursive call inside `for i in range(<dims>[0])`
+    gens = []
+    for c in lk.mro(top):
+        if not c.mod.rel.startswith(YS_DIR):
+            continue
+        for mn, f in sorted(c.methods().items()):
+            eff = lk.find(top, mn)
+            if eff is None or eff[1] is not f:
+                continue
+            for g in [f] + _nested_funcs(f):
+                for lp in [x for x in walk_no_nested(g) if isinstance(x, ast.For)]:
+                    if not (isinstance(lp.iter, ast.Call) and norm(lp.iter.func) in ('range', 'reversed')):
+                        continue
+                    for call in [x for x in ast.walk(lp) if isinstance(x, ast.Call)]:
+                        nm = _callee_name(call)
+                        is_self = (g is f and isinstance(call.func, ast.Attribute) and nm == f.name) or \
+                                  (g is not f and isinstance(call.func, ast.Name) and nm == g.name)
+                        if is_self:
+                            gens.append((c, f, g, lp, call))
+    for c, f, g, lp, call in gens:
+        iv = norm(lp.target)
+        gparams = [a.arg for a in g.args.args]
+        if g is f:
+            gparams = gparams[1:]
+        # resolve local helper names (_pid = f"{pid}__{i}") used as arguments
+        binds = {}
+        for p, a in zip(gparams, call.args):
+            e = a
+            if isinstance(a, ast.Name):
+                rv = reaching_value(a.id, call)
+                if rv is not None:
+                    e = rv
+            binds[p] = e
+        idx_params = []
+        name_params = []
+        for p, e in binds.items():
+            vs = to_variants(e)
+            if len(vs) != 1:
+                continue
+            sk = vs[0].skeleton()
+            hs = [h.text for h in hole_list(vs[0].parts)]
+            if re.fullmatch(r"⟨0⟩\[⟨1⟩\]", sk) and hs == [p, iv]:
+                idx_params.append((p, 'suffix'))
+            elif re.fullmatch(r"\[⟨0⟩\]⟨1⟩", sk) and hs == [iv, p]:
+                idx_params.append((p, 'prefix'))
+            elif re.fullmatch(r"⟨0⟩__⟨1⟩", sk) and hs[0] == p and hs[1] in (iv, f"str({iv})"):
+                name_params.append((p, 'suffix'))
+            elif re.fullmatch(r"⟨0⟩__⟨1⟩", sk) and hs[1] == p and hs[0] in (iv, f"str({iv})"):
+                name_params.append((p, 'prefix'))
+        if not idx_params:
+            continue          # generators without a wire index (port name enumeration only)
+        n += 1
+        where = fq(c, f) + ('' if g is f else '.' + g.name)
+        if len(idx_params) != 1:
+            raise AnalysisError(f"{where}: more than one index accumulator")
+        ip, mode = idx_params[0]
+        dims_p = None
+        mm = re.search(r"(\w+)\[0\]", norm(lp.iter))
+        if mm:
+            dims_p = mm.group(1)
+        asc = dims_p is not None and _ascending_range(lp.iter, f"{dims_p}[0]")
+        # where do the generator's own dimensions sit in the declared wire?
+        ext = []
+        scope = [f] if g is not f else [ff for _, ff in sorted(c.methods().items())]
+        for ff in ([f] if g is not f else [ff for cc in lk.mro(top) if cc.mod.rel.startswith(YS_DIR) for ff in cc.methods().values()]):
+            for x in ast.walk(ff):
+                if isinstance(x, ast.Call) and x is not call and _callee_name(x) == g.name and not any(x is y for y in ast.walk(g)):
+                    ext.append((ff, x))
+        own_texts = set()
+        init_idx = set()
+        by_def = False
+        for ff, x in ext:
+            args = x.args
+            if dims_p in gparams and gparams.index(dims_p) < len(args):
+                a = args[gparams.index(dims_p)]
+                rv = reaching_value(a.id, x) if isinstance(a, ast.Name) else None
+                if rv is not None:
+                    own_texts.add(norm(rv))       # identified by its definition (robust against equally named locals)
+                    by_def = True
+                else:
+                    own_texts.add(norm(a))
+            if ip in gparams and gparams.index(ip) < len(args):
+                init_idx.add(norm(args[gparams.index(ip)]))
+        scope_funcs = [ff for ff, x in ext]
+        if by_def:
+            scope_funcs += [ff for cc in lk.mro(top) if cc.mod.rel.startswith(YS_DIR) for ff in cc.methods().values()]
+        pos = _dims_position(scope_funcs, own_texts)
+        # two levels of recursion with loop indices i0 (outer) then i1: order of the indices in the final wire index
+        order = ['X', 'i0', 'i1'] if mode == 'suffix' else ['i1', 'i0', 'X']
+        if pos == 'first':
+            want = ['i0', 'i1', 'X']
+        elif pos == 'last':
+            want = ['X', 'i0', 'i1']
+        else:
+            want = ['X', 'i0', 'i1'] if init_idx <= {"''", '""'} else None
+        nm_order = None
+        if name_params:
+            nm_order = ['i0', 'i1'] if name_params[0][1] == 'suffix' else ['i1', 'i0']
+        cons = f"{g.name}: index {norm(binds[ip])}, name {norm(binds[name_params[0][0]]) if name_params else '-'}; own dims {pos or 'only'}"
+        if want is None:
+            raise AnalysisError(f"{where}: cannot relate the generator's dimensions to the declared wire ({sorted(own_texts)})")
+        got_i = [x for x in order if x != 'X']
+        if not asc:
+            r.bad(c.mod, where, cons, f"array elements are enumerated as `{norm(lp.iter)}`, not range(n)", lp.lineno)
+        elif order != want or (nm_order is not None and nm_order != got_i):
+            show = lambda o_: ''.join(f"[{x}]" if x != 'X' else '<idx>' for x in o_)
+            r.bad(c.mod, where, cons, f"for a 2-D array the wire index is built as {show(order)} but the wire is declared with "
+                  f"dimensions in the order {show(want)} and the flat name enumerates {'__'.join(nm_order or got_i)}: the "
+                  f"connection reaches the transposed (or an out-of-range) element", lp.lineno)
+        else:
+            r.ok(c.mod, where, cons)
+    r.evaluations = n
+    r.require_floor(4)
+    return r
+
+
+# ---------------------------------------------------------------------------
+def rule_deq(repo):
+    r = RuleResult('R-C12-deq', "the Yosys structural translator queues exactly one expression record per translated signal "
+                                "expression: nested literals inside a struct literal must not queue their own record")
+    lk = linker(repo)
+    top = backend_class(repo, 'yosys')
+    n = 0
+    producers = {}
+    for name in ('rtlir_tr_struct_instance', 'rtlir_tr_literal_number'):
+        res = lk.find(top, name)
+        if res is None:
+            raise AnalysisError(f"anchor vanished: {name}")
+        c, f = res
+        # the parameter that guards `s.deq.append(...)`
+        guard = None
+        apps = [x for x in walk_no_nested(f) if isinstance(x, ast.Call) and norm(x.func).endswith('.deq.append')]
+        for a in apps:
+            gs = [g_ for g_ in guards_of(a) if g_.kind == 'if' and g_.polarity is True and isinstance(g_.test, ast.Name)]
+            if gs:
+                guard = gs[0].test.id
+            else:
+                r.bad(c.mod, fq(c, f), norm(a)[:80], "a record is queued unconditionally: nested uses (fields of a struct literal) "
+                      "queue extra records and every later connection pairs the wrong writer/reader expressions", a.lineno)
+        if guard is None and apps:
+            continue
+        if not apps:
+            raise AnalysisError(f"{fq(c, f)}: queueing of the expression record not found")
+        producers[name] = (c, f, guard)
+        n += 1
+        r.ok(c.mod, fq(c, f), f"deq.append guarded by `{guard}`")
+    c, f, guard = producers.get('rtlir_tr_struct_instance', (None, None, None))
+    if f is not None:
+        for call in [x for x in ast.walk(f) if isinstance(x, ast.Call) and isinstance(x.func, ast.Attribute)
+                     and x.func.attr in producers and isinstance(x.func.value, ast.Name)]:
+            pc, pf, pg = producers[call.func.attr]
+            params = [a.arg for a in pf.args.args][1:]
+            val = None
+            if pg in params and params.index(pg) < len(call.args):
+                val = call.args[params.index(pg)]
+            for k in call.keywords:
+                if k.arg == pg:
+                    val = k.value
+            n += 1
+            cons = f"nested {norm(call)[:90]}"
+            if isinstance(val, ast.Constant) and val.value is False:
+                r.ok(c.mod, fq(c, f), cons)
+            else:
+                r.bad(c.mod, fq(c, f), cons, f"a literal nested in a struct literal is produced with {pg}="
+                      f"{norm(val) if val is not None else 'True (default)'}: it queues its own record, so the next "
+                      f"rtlir_tr_connection dequeues a field literal instead of the signal expression", call.lineno)
+    r.evaluations = n
+    r.require_floor(5)
+    return r
+
+
+def rule_wire_forms(repo):
+    r = RuleResult('R-C12-wire-forms', "every declaration that creates both the packed form and the per-field / per-element forms "
+                                       "of a signal also emits the assigns that tie them together")
+    lk = linker(repo)
+    top = backend_class(repo, 'yosys')
+    n = 0
+    for name, (c, f) in sorted(lk.effective_methods(top).items()):
+        if not c.mod.rel.startswith(YS_DIR):
+            continue
+        calls = {_callee_name(x) for x in ast.walk(f) if isinstance(x, ast.Call) and isinstance(x.func, ast.Attribute)
+                 and isinstance(x.func.value, ast.Name) and x.func.value.id == f.args.args[0].arg}
+        if 'port_wire_gen' in calls and name not in ('port_wire_gen',):
+            n += 1
+            cons = f"{name}: port_wire_gen{' + port_connection_gen' if 'port_connection_gen' in calls else ''}"
+            if 'port_connection_gen' in calls:
+                r.ok(c.mod, fq(c, f), cons)
+            else:
+                r.bad(c.mod, fq(c, f), cons, "declares the packed wire and the per-field wires of a struct / array signal "
+                      "(port_wire_gen) but never connects them (no port_connection_gen): a block that writes the whole signal "
+                      "and a reader of one field (or vice versa) are not connected in the emitted Verilog", f.lineno)
+    r.evaluations = n
     r.require_floor(3)
     return r
